@@ -15,6 +15,7 @@ import (
 	regexanalysis "github.com/spq/pkappa2/internal/tools/regexAnalysis"
 	"github.com/spq/pkappa2/internal/tools/seekbufio"
 	"rsc.io/binaryregexp"
+	"rsc.io/binaryregexp/syntax"
 )
 
 type (
@@ -87,10 +88,32 @@ const (
 	progressVariantFlagStateExact               progressVariantFlag = 1
 	progressVariantFlagStatePrecondition        progressVariantFlag = 2
 	progressVariantFlagStatePreconditionMatched progressVariantFlag = 3
+	// the current regex did not match, the progress can not advance anymore
+	progressVariantFlagFailed progressVariantFlag = 4
 
 	C2S = query.DataRequirementSequenceFlagsDirectionClientToServer / query.DataRequirementSequenceFlagsDirection
 	S2C = query.DataRequirementSequenceFlagsDirectionServerToClient / query.DataRequirementSequenceFlagsDirection
 )
+
+// hasEmptyWidthAssertion reports whether expr contains ^ $ \A \z \b or \B.
+// Such an expression must see the text around a match, so it can not be run
+// on a buffer that was shortened by the prefix, suffix or length shortcuts.
+func hasEmptyWidthAssertion(expr string) bool {
+	r, err := syntax.Parse(expr, syntax.Perl)
+	if err != nil {
+		return false
+	}
+	stack := []*syntax.Regexp{r}
+	for len(stack) != 0 {
+		cur := stack[len(stack)-1]
+		stack = append(stack[:len(stack)-1], cur.Sub...)
+		switch cur.Op {
+		case syntax.OpBeginLine, syntax.OpEndLine, syntax.OpBeginText, syntax.OpEndText, syntax.OpWordBoundary, syntax.OpNoWordBoundary:
+			return true
+		}
+	}
+	return false
+}
 
 func (dcc *dataConditionsContainer) add(cc *query.DataCondition, subQuery string, previousResults map[string]resultData) error {
 	if len(cc.Elements) == 0 {
@@ -300,6 +323,9 @@ func (dcc *dataConditionsContainer) finalize(r *Reader, queryPartIndex int, prev
 					return nil, err
 				}
 			}
+			if hasEmptyWidthAssertion(e.Regex) {
+				r.root.prefix, r.root.suffix = nil, nil
+			}
 			continue
 		}
 
@@ -403,6 +429,9 @@ func (dcc *dataConditionsContainer) finalize(r *Reader, queryPartIndex int, prev
 					if root.suffix, err = regexanalysis.ConstantSuffix(regex); err != nil {
 						return nil, err
 					}
+				}
+				if hasEmptyWidthAssertion(regex) {
+					root.prefix, root.suffix = nil, nil
 				}
 				root.isPrecondition = isPrecondition
 
@@ -726,6 +755,9 @@ func (ps *progressGroup) prepare(r *regex, pIdx int, e *query.DataConditionEleme
 			return nil, err
 		}
 	}
+	if hasEmptyWidthAssertion(expr) {
+		p.prefix, p.suffix = nil, nil
+	}
 	return p, nil
 }
 
@@ -763,7 +795,7 @@ func makeDataConditionFilter(dataSources []func(s *stream) ([][2]int, [2][]byte,
 
 						ps := &progressGroups[o.condition]
 						for pIdx := 0; pIdx < len(ps.variants); pIdx++ {
-							if p := &ps.variants[pIdx]; o.element != p.nSuccessful {
+							if p := &ps.variants[pIdx]; o.element != p.nSuccessful || p.flags&progressVariantFlagFailed != 0 {
 								continue
 							}
 
@@ -774,6 +806,9 @@ func makeDataConditionFilter(dataSources []func(s *stream) ([][2]int, [2][]byte,
 
 							res := p.find(buffers, dir)
 							if res == nil {
+								// find moved the offset to the end of the data, searching the empty rest
+								// again could succeed for expressions like ^$
+								p.flags |= progressVariantFlagFailed
 								continue
 							}
 							variableNames := p.regex.SubexpNames()
